@@ -612,7 +612,8 @@ def builder_sequence_failures(n, seed, limit=3):
         cvals, cvar = np.sort(np.abs(numbers(k))) + 1e-9, (np.abs(numbers(k)) + 1e-12 if rnd.random() < 0.5 else None)
         dvals, dvar = numbers(k), (np.abs(numbers(k)) + 1e-12 if rnd.random() < 0.6 else None)
         name = rnd.choice([None, 'intensity_net', 'intensity_norm', 'intensity_total'])
-        da = sc.DataArray(sc.array(dims=[dim], values=dvals, variances=dvar, unit=rnd.choice(['counts', 'one'])),
+        # (units whose printed form is not ASCII -- counts/Å, µC -- end up in a generated comment)
+        da = sc.DataArray(sc.array(dims=[dim], values=dvals, variances=dvar, unit=rnd.choice(['counts', 'one', 'counts/angstrom', 'uC', 'counts/us'])),
                           coords={dim: sc.array(dims=[dim], values=cvals, variances=cvar, unit=unit)})
         if name is not None:
             da.name = name
@@ -653,6 +654,8 @@ def builder_sequence_failures(n, seed, limit=3):
             try:
                 b.save(f)
                 blocks, _ = parse(f.getvalue())
+                if not f.getvalue().isascii():
+                    raise CifSyntaxError('non-ASCII characters in the file: ' + repr(sorted({c for c in f.getvalue() if not c.isascii()}))[:80])
             except CifSyntaxError as e:
                 fails.append({'id': f'tree{i}-{k}', 'index': i, 'seed': seed, 'problem': f'not valid CIF: {e}'})
                 break
